@@ -60,6 +60,11 @@ class Gen:
         self.pending = []	# names whose ill-typed definition was rejected: define them properly later
         self.pending_dom = []
         self.newtypes = ["Float", "DoubleFloat"] if dialect != "libaldor" else []	# types nothing has mentioned yet
+        self.bumps = {}		# name -> (variable, increment)
+        self.recs = {}		# name -> {a, b}
+        self.rectype = None
+        self.arrs = {}		# name -> list (index 0 unused)
+        self.geners = {}
         self.files = {}		# auxiliary files of the sandbox (included by some forms)
         self.forms = []
 
@@ -306,6 +311,123 @@ class Gen:
         self.vars[nm] = (self.vars[nm] + k * (k + 1) // 2)
         return self.add(Form("loop", "for i: %s in 1..%d repeat %s := %s + i;" % (self.d.SI, k, nm, nm)))
 
+    # ---- state that is mutated across steps (records, arrays, side-effecting functions) -------
+    def g_bump(self):
+        """a nullary function that updates a session variable and returns it"""
+        if not self.vars:
+            return self.g_var()
+        SI = self.d.SI
+        vn = self.rng.choice(sorted(self.vars))
+        nm = self.fresh("b")
+        k = self.rng.range(1, 9)
+        self.bumps[nm] = (vn, k)
+        return self.add(Form("bump", "%s(): %s == { free %s; %s := %s + %d; %s }" % (nm, SI, vn, vn, vn, k, vn)))
+
+    def call_bump(self):
+        nm = self.rng.choice(sorted(self.bumps))
+        vn, k = self.bumps[nm]
+        self.vars[vn] = self.vars[vn] + k
+        return nm, self.vars[vn]
+
+    def g_exprstep(self):
+        """a step that is a bare expression (the loop wraps it to echo / record its value);
+        with a side effect when a bump function exists: it must be evaluated exactly once"""
+        if self.bumps and self.rng.chance(2, 3):
+            nm, _ = self.call_bump()
+            return self.add(Form("expr-step", "%s();" % nm))
+        e, _ = self.bexpr()
+        return self.add(Form("expr-step", "%s;" % e))
+
+    def g_out_bump(self):
+        if not self.bumps:
+            return self.g_bump()
+        self.mark += 1
+        m = "@@%d:" % self.mark
+        nm, v = self.call_bump()
+        return self.add(Form("out", '%s << "%s" << %s() << newline;' % (self.d.out, m, nm), marker=m, value=m + str(v)))
+
+    def g_record(self):
+        SI = self.d.SI
+        if self.recs and self.rng.chance(2, 3):
+            nm = self.rng.choice(sorted(self.recs))
+            fld = self.rng.choice(["a", "b"])
+            e, v = self.bexpr()
+            self.recs[nm][fld] = v
+            self.add(Form("rec-set", "%s.%s := %s;" % (nm, fld, e)))
+        else:
+            if not self.rectype:
+                self.rectype = self.fresh("R")
+                self.add(Form("macro", "%s ==> Record(a: %s, b: %s);" % (self.rectype, SI, SI)))
+                self.add(Form("import", "import from %s;" % self.rectype))
+            nm = self.fresh("r")
+            (a, av), (b, bv) = self.bexpr(), self.bexpr()
+            self.recs[nm] = {"a": av, "b": bv}
+            self.add(Form("rec", "%s: %s := [%s, %s];" % (nm, self.rectype, a, b)))
+        self.mark += 1
+        m = "@@%d:" % self.mark
+        return self.add(Form("out", '%s << "%s" << %s.a + %s.b << newline;' % (self.d.out, m, nm, nm), marker=m,
+                             value=m + str(self.recs[nm]["a"] + self.recs[nm]["b"])))
+
+    def g_array(self):
+        SI = self.d.SI
+        if self.arrs and self.rng.chance(2, 3):
+            nm = self.rng.choice(sorted(self.arrs))
+            i = self.rng.range(1, len(self.arrs[nm]) - 1)
+            e, v = self.bexpr()
+            self.arrs[nm][i] = v
+            self.add(Form("arr-set", "%s.%d := %s;" % (nm, i, e)))
+        else:
+            if not self.arrs:
+                self.add(Form("import", "import from Array %s;" % SI))
+            nm = self.fresh("ar")
+            n, k = self.rng.range(3, 9), self.rng.range(0, 20)
+            self.arrs[nm] = [k] * (n + 1)
+            self.add(Form("arr", "%s: Array %s := new(%d, %d + z0);" % (nm, SI, n + 1, k)))
+        i, j = self.rng.range(1, len(self.arrs[nm]) - 1), self.rng.range(1, len(self.arrs[nm]) - 1)
+        self.mark += 1
+        m = "@@%d:" % self.mark
+        return self.add(Form("out", '%s << "%s" << %s.%d + %s.%d << newline;' % (self.d.out, m, nm, i, nm, j), marker=m,
+                             value=m + str(self.arrs[nm][i] + self.arrs[nm][j])))
+
+    def g_closure(self):
+        """a function-valued constant made by a lambda that closes over a constant"""
+        SI = self.d.SI
+        nm = self.fresh("f")
+        cn, cv = self.cname()
+        k = self.rng.range(1, 9)
+        self.funs[nm] = (1, lambda a, k=k, cv=cv: (a * k + cv) % M)
+        return self.add(Form("closure", "%s: %s -> %s == (x: %s): %s +-> (x * %d + %s) rem %d;" % (nm, SI, SI, SI, SI, k, cn, M)))
+
+    def g_gener(self):
+        """a generator-returning function, consumed by a top-level loop into a variable"""
+        SI = self.d.SI
+        if not self.vars:
+            return self.g_var()
+        if not self.geners:
+            gn = self.fresh("g")
+            k = self.rng.range(1, 5)
+            self.geners[gn] = k
+            self.add(Form("gener", "%s(n: %s): Generator %s == generate { for i in 1..n repeat yield i * i + %d }" % (gn, SI, SI, k)))
+        gn = self.rng.choice(sorted(self.geners))
+        k = self.geners[gn]
+        n = self.rng.range(1, 7)
+        vn = self.rng.choice(sorted(self.vars))
+        self.vars[vn] = self.vars[vn] + sum(i * i + k for i in range(1, n + 1))
+        return self.add(Form("gener-loop", "for x in %s(%d) repeat %s := %s + x;" % (gn, n, vn, vn)))
+
+    def g_cond(self):
+        """conditional inclusion: a skipped assignment, an asserted one"""
+        if not self.vars:
+            return self.g_var()
+        vn = self.rng.choice(sorted(self.vars))
+        if self.rng.chance(1, 2):
+            return self.add(Form("if-skip", "#if %s\n%s := %d;\n#endif" % (self.fresh("NOPE"), vn, self.rng.range(100, 999))))
+        a = self.fresh("YEP")
+        self.add(Form("assert", "#assert %s" % a))
+        k = self.rng.range(100, 999)
+        self.vars[vn] = k
+        return self.add(Form("if-taken", "#if %s\n%s := %d + z0;\n#endif" % (a, vn, k)))
+
     # ---- rejected forms (state must be unchanged afterwards) ---------------------------------
     def b_any(self, only=None):
         r = self.rng
@@ -330,6 +452,9 @@ class Gen:
             opts.append("bad-first-type")
         opts.append("bad-syntax")
         opts += ["dup-param", "wild", "wild", "missing-export", "macro-argc"]
+        opts += ["no-include", "no-library", "endif", "hash-error", "percent", "scan-err", "bad-import2", "bad-partial"]
+        if self.vars:
+            opts += ["enum-lit", "bad-lhs", "multi-lhs"]
         # (a second definition with the signature of an existing function is NOT in the
         # catalogue: the loop answers it with an interactive "Redefine? (y/n)" question that
         # eats the following input - a dialogue, not a rejection, and outside the property)
@@ -366,6 +491,34 @@ class Gen:
         if k == "macro-argc":		# rejected during macro expansion
             nm = self.fresh("MQ")
             return self.add(Form("bad:" + k, "{ %s(a, b) ==> a + b; %s: %s := %s(1) }" % (nm, self.fresh("v"), SI, nm), good=False))
+        if k == "no-include":		# rejected while lines are read
+            return self.add(Form("bad:" + k, '#include "%s.as"' % self.fresh("nosuch"), good=False))
+        if k == "no-library":
+            return self.add(Form("bad:" + k, '#library %s "%s.ao"' % (self.fresh("LL"), self.fresh("nosuch")), good=False))
+        if k == "endif":
+            return self.add(Form("bad:" + k, "#endif", good=False))
+        if k == "hash-error":
+            return self.add(Form("bad:" + k, '#error "%s"' % self.fresh("boo"), good=False))
+        if k == "percent":		# % outside any domain
+            return self.add(Form("bad:" + k, "%s: %% := 3;" % self.fresh("q"), good=False))
+        if k == "enum-lit":
+            return self.add(Form("bad:" + k, "%s := 'abc';" % r.choice(sorted(self.vars)), good=False))
+        if k == "scan-err":		# rejected by the scanner; the line is lexically complete
+            nm = self.fresh("q")
+            return self.add(Form("bad:" + k, r.choice(["%s := 2r;", "%s := 3 ` 4;", "%s := 1.0e+;"]) % nm, good=False))
+        if k == "bad-import2":
+            return self.add(Form("bad:" + k, "import from %s %s;" % (self.fresh("Foo"), self.fresh("Bar")), good=False))
+        if k == "bad-lhs":
+            return self.add(Form("bad:" + k, "%s :: Integer := 3;" % r.choice(sorted(self.vars)), good=False))
+        if k == "multi-lhs":
+            nm = r.choice(sorted(self.vars))
+            return self.add(Form("bad:" + k, "(%s, %s) := 3;" % (nm, nm), good=False))
+        if k == "bad-partial":
+            # one step holding an acceptable definition of a fresh name and an ill-typed one: the whole
+            # step is rejected, the first name must stay undefined (it is defined properly later)
+            nm = self.fresh("f")
+            self.pending.append(nm)
+            return self.add(Form("bad:" + k, '{ %s(a: %s): %s == a + 1; %s: %s == %s(2) + "x" }' % (nm, SI, SI, self.fresh("q"), SI, nm), good=False))
         if k == "bad-syntax":
             # lexically complete (brackets balanced or closing only, statement terminated), but no parse
             text = r.choice(['%s << ) 3;' % self.d.out, 'q%d := 3 +;' % r.range(1, 99), 'if then else;', 'x +-> ;',
@@ -469,7 +622,8 @@ class Gen:
                 k = r.weighted([("out", 30), ("assign", 12), ("var", 8), ("const", 8), ("fun", 10), ("big", 6),
                                 ("str", 6), ("list", 8), ("loop", 6), ("domain", 3 if self.d.name != "libaldor" else 0),
                                 ("macro", 4), ("ifblock", 5), ("include", 3 if len(self.files) < 3 else 0),
-                                ("out_split", 6), ("fun_split", 4)])
+                                ("out_split", 6), ("fun_split", 4), ("bump", 4), ("exprstep", 6), ("out_bump", 5 if self.bumps else 0),
+                                ("record", 5), ("array", 5), ("closure", 3), ("gener", 4), ("cond", 3)])
                 getattr(self, "g_" + k)()
         # every session ends with an output so the last state is observed
         self.g_out()
